@@ -2648,7 +2648,9 @@ def distributed_shampoo(
     new_statistics = [[]] * len(state.statistics)
     w1 = beta2
     w2 = jnp.where(beta2 == 1.0, beta2, 1.0 - beta2)
-    new_avg_grad = optax.MaskedNode()
+    # Keep the state's layout: parameters that are not averaged (skipped, or
+    # averaging off) carry their avg_grad leaf through unchanged.
+    new_avg_grad = state.avg_grad
     if not _skip_preconditioning(param):
 
       if frequent_directions and average_grad:
